@@ -17,65 +17,78 @@ EXTENDS ServerRef, TLC
 CONSTANTS Clients, MaxReq
 Workers == 2
 LibMayPanic == FALSE
-VARIABLES conn,      \* per client: the connection's stage and the request class it carries
+VARIABLES orphans,   \* conversions still running on a runtime thread although their client has left
+          conn,      \* per client: the connection's stage and the request class it carries
           sent,      \* per client: requests issued so far
           busy,      \* number of runtime threads inside a conversion
           log,       \* completed exchanges <<class, status>>
           alive
-vars == <<conn, sent, busy, log, alive>>
+vars == <<conn, sent, busy, log, alive, orphans>>
 Idle == [stage |-> "idle", class |-> "none", status |-> 0]
-Init == conn = [c \in Clients |-> Idle] /\ sent = [c \in Clients |-> 0] /\ busy = 0 /\ log = {} /\ alive = TRUE
+Init == conn = [c \in Clients |-> Idle] /\ sent = [c \in Clients |-> 0] /\ busy = 0 /\ log = {} /\ alive = TRUE /\ orphans = 0
 
 \* a client writes a request (one in flight per client)
 Send(c) == /\ alive /\ conn[c].stage = "idle" /\ sent[c] < MaxReq
            /\ \E cl \in ReqClasses : conn' = [conn EXCEPT ![c] = [stage |-> "received", class |-> cl, status |-> 0]]
-           /\ sent' = [sent EXCEPT ![c] = @ + 1] /\ UNCHANGED <<busy, log, alive>>
+           /\ sent' = [sent EXCEPT ![c] = @ + 1] /\ UNCHANGED <<busy, log, alive, orphans>>
 Answer(c, st) == conn' = [conn EXCEPT ![c] = [@ EXCEPT !.stage = "answered", !.status = st]]
 \* hyper parses the request line and the headers: what is not HTTP is answered 400 or the connection is closed
 ParseHead(c) == /\ alive /\ conn[c].stage = "received"
                 /\ IF conn[c].class = "malformed" THEN \E st \in {400, 0} : Answer(c, st)
                    ELSE conn' = [conn EXCEPT ![c].stage = "parsed"]
-                /\ UNCHANGED <<sent, busy, log, alive>>
+                /\ UNCHANGED <<sent, busy, log, alive, orphans>>
 \* the router: only "/" is routed (404 otherwise), with GET and POST (405 otherwise)
 Route(c) == /\ alive /\ conn[c].stage = "parsed"
             /\ CASE conn[c].class = "other_path" -> Answer(c, 404)
                  [] conn[c].class = "other_method" -> Answer(c, 405)
                  [] conn[c].class = "get" -> Answer(c, 200)                        \* hello(): name and version
                  [] OTHER -> conn' = [conn EXCEPT ![c].stage = "routed"]
-            /\ UNCHANGED <<sent, busy, log, alive>>
+            /\ UNCHANGED <<sent, busy, log, alive, orphans>>
 \* the Bytes extractor under the default body limit of 2 MiB
 Extract(c) == /\ alive /\ conn[c].stage = "routed"
               /\ IF conn[c].class = "post_oversize" THEN Answer(c, 413) ELSE conn' = [conn EXCEPT ![c].stage = "extracted"]
-              /\ UNCHANGED <<sent, busy, log, alive>>
+              /\ UNCHANGED <<sent, busy, log, alive, orphans>>
 \* text_to_svgbob: String::from_utf8, else 400
 Decode(c) == /\ alive /\ conn[c].stage = "extracted"
              /\ IF conn[c].class = "post_badutf8" THEN Answer(c, 400) ELSE conn' = [conn EXCEPT ![c].stage = "decoded"]
-             /\ UNCHANGED <<sent, busy, log, alive>>
+             /\ UNCHANGED <<sent, busy, log, alive, orphans>>
 \* svgbob::to_svg on a runtime thread: begins when a thread is free, ends by C01
 ConvertBegin(c) == /\ alive /\ conn[c].stage = "decoded" /\ busy < Workers
                    /\ conn' = [conn EXCEPT ![c].stage = "converting"] /\ busy' = busy + 1
-                   /\ UNCHANGED <<sent, log, alive>>
+                   /\ UNCHANGED <<sent, log, alive, orphans>>
 ConvertEnd(c) == /\ alive /\ conn[c].stage = "converting"
-                 /\ Answer(c, 200) /\ busy' = busy - 1 /\ UNCHANGED <<sent, log, alive>>
+                 /\ Answer(c, 200) /\ busy' = busy - 1 /\ UNCHANGED <<sent, log, alive, orphans>>
 \* a panic of the handler: the task is dropped, the connection closed without a response
 ConvertPanic(c) == /\ LibMayPanic /\ alive /\ conn[c].stage = "converting"
-                   /\ Answer(c, 0) /\ busy' = busy - 1 /\ UNCHANGED <<sent, log, alive>>
+                   /\ Answer(c, 0) /\ busy' = busy - 1 /\ UNCHANGED <<sent, log, alive, orphans>>
 \* the response is written (or the connection closed) and the exchange is complete
 Respond(c) == /\ alive /\ conn[c].stage = "answered"
               /\ log' = log \cup { <<conn[c].class, conn[c].status>> }
-              /\ conn' = [conn EXCEPT ![c] = Idle] /\ UNCHANGED <<sent, busy, alive>>
+              /\ conn' = [conn EXCEPT ![c] = Idle] /\ UNCHANGED <<sent, busy, alive, orphans>>
+\* clients that misbehave politely (the drivers' stalled uploads, clients that leave before their answer, connections reset before
+\* anything is sent): a client may drop its connection at any stage.  Nothing of it remains - except a conversion that is already
+\* running, which runs on as an orphan and gives its thread back when it ends (OrphanEnd).  An upload that stalls is a connection
+\* that stays in "received" until its client leaves: it holds no thread.
+Leave(c) == /\ alive /\ conn[c].stage \notin {"idle", "answered"}
+            /\ conn' = [conn EXCEPT ![c] = Idle]
+            /\ orphans' = IF conn[c].stage = "converting" THEN orphans + 1 ELSE orphans
+            /\ UNCHANGED <<sent, busy, log, alive>>
+OrphanEnd == /\ alive /\ orphans > 0 /\ orphans' = orphans - 1 /\ busy' = busy - 1 /\ UNCHANGED <<conn, sent, log, alive>>
 Step(c) == Send(c) \/ ParseHead(c) \/ Route(c) \/ Extract(c) \/ Decode(c) \/ ConvertBegin(c) \/ ConvertEnd(c)
            \/ ConvertPanic(c) \/ Respond(c)
-Next == \E c \in Clients : Step(c)
-Spec == Init /\ [][Next]_vars /\ \A c \in Clients : WF_vars(Step(c))
+\* (Leave is the environment's choice: no fairness on it; a runtime thread always finishes what it is doing)
+Next == (\E c \in Clients : Step(c) \/ Leave(c)) \/ OrphanEnd
+Spec == Init /\ [][Next]_vars /\ (\A c \in Clients : WF_vars(Step(c))) /\ WF_vars(OrphanEnd)
 
-TypeOK == /\ busy \in 0..Workers /\ alive \in BOOLEAN
+TypeOK == /\ busy \in 0..Workers /\ alive \in BOOLEAN /\ orphans \in 0..Workers
           /\ \A c \in Clients : conn[c].stage \in {"idle", "received", "parsed", "routed", "extracted", "decoded",
                                                    "converting", "answered"}
 ResponseIsFunctionOfRequest == \A e1, e2 \in log : (e1[1] = e2[1] /\ e1[1] # "malformed") => e1[2] = e2[2]
 ResponsesAllowed == \A e \in log : e[2] \in AllowedStatus(e[1])
 ServerAlive == alive
 \* threads inside a conversion are exactly the connections in that stage
-BusyCounts == busy = Cardinality({ c \in Clients : conn[c].stage = "converting" })
+BusyCounts == busy = Cardinality({ c \in Clients : conn[c].stage = "converting" }) + orphans
+\* a client that leaves takes no thread with it for good: whenever nobody converts and no orphan runs, every thread is free
+NoThreadLost == (orphans = 0 /\ \A c \in Clients : conn[c].stage # "converting") => busy = 0
 AllAnswered == <>(\A c \in Clients : sent[c] = MaxReq /\ conn[c].stage = "idle")
 =============================================================================
